@@ -387,3 +387,8 @@ def run(ctx: Context) -> None:  # noqa: F811
     ctx.rep.rule('C15.R6', 'every raw socket / runtime call of a backend operation (directly or through a helper) lies inside a map_exceptions scope; close() is exactly the release call')
     backend.raw_calls_mapped(ctx, 'C15.R6')
     ctx.rep.explanation = (ctx.rep.explanation or '') + ' R6 (transport layer): no raw socket/runtime call of a backend operation lies outside map_exceptions (close()/aclose() may contain only the release itself).'
+    from . import support
+
+    ctx.rep.rule('C15.R7', 'the exception-mapping helper has exactly the meaning the analysis assumes, and no context manager of the package suppresses exceptions')
+    support.mapping_helper_faithful(ctx, 'C15.R7')
+    support.exits_never_suppress(ctx, 'C15.R7')
